@@ -18,6 +18,9 @@ struct Case {
     n: usize,
     entsize: usize,
     shndx: u32,
+    /// the designated string table starts this many bytes into the name buffer
+    /// (1: the table does not begin with a NUL byte and name index 0 is ".text")
+    strtab_delta: u32,
     seclen: usize,
     img: Vec<u8>,
 }
@@ -34,6 +37,7 @@ impl Case {
             ("n", J::u(self.n as u64)),
             ("entsize", J::u(self.entsize as u64)),
             ("shndx", J::u(self.shndx as u64)),
+            ("strtab_starts_at_name_buffer_plus", J::u(self.strtab_delta as u64)),
             ("section_bytes", J::u(self.seclen as u64)),
             ("entries_fit", J::B(self.fits())),
             ("strtab_entry_inside", J::B(self.strtab_inside())),
@@ -48,6 +52,7 @@ fn make(rng: &mut Rng, n: usize, entsize: usize, shndx: u32, seclen: usize) -> C
     let nb = gen::names();
     let size = 20 + seclen;
     let mut img = rng.bytes(round8(size));
+    let strtab_delta = if rng.chance(1, 3) { 1 } else { 0 };
     put32(&mut img, 0, 9);
     put32(&mut img, 4, size as u32);
     put32(&mut img, 8, n as u32);
@@ -63,17 +68,23 @@ fn make(rng: &mut Rng, n: usize, entsize: usize, shndx: u32, seclen: usize) -> C
             break;
         }
         let typ = if rng.chance(1, 3) { *rng.pick(ELF_TYPE_CLASSES) } else { 1 + rng.below(11) as u32 };
-        put32(&mut img, o, rng.pick(&nb.names).0);
+        let name_off = loop {
+            let x = rng.pick(&nb.names).0;
+            if x >= strtab_delta {
+                break x;
+            }
+        };
+        put32(&mut img, o, name_off - strtab_delta);
         put32(&mut img, o + 4, typ);
         if i as u32 == shndx {
             if entsize == 40 {
-                put32(&mut img, o + 12, nb.addr as u32);
+                put32(&mut img, o + 12, nb.addr as u32 + strtab_delta);
             } else if entsize == 64 {
-                put64(&mut img, o + 16, nb.addr as u64);
+                put64(&mut img, o + 16, nb.addr as u64 + strtab_delta as u64);
             }
         }
     }
-    Case { n, entsize, shndx, seclen, img }
+    Case { n, entsize, shndx, strtab_delta, seclen, img }
 }
 
 impl C19 {
@@ -192,7 +203,7 @@ impl C19 {
                 }
             }
             // names resolve through the designated string-table entry
-            let name_known = nb.names.iter().find(|x| x.0 == e.name_index);
+            let name_known = nb.names.iter().find(|x| x.0 == e.name_index.wrapping_add(c.strtab_delta));
             if let Some((_, nbytes)) = name_known {
                 let r = catch(|| s.name().map(|x| x.as_bytes().to_vec()).map_err(|_| ()));
                 if c.strtab_inside() {
